@@ -1134,7 +1134,53 @@ def make_polycomp_class():
                 r = np.concatenate([np.asarray(d_outputs[o['name']]).ravel() for o in c['outs']])
                 self._split(np.linalg.solve(self._A.T, r), d_residuals)
 
-    return PolyComp, PolyCompMF, AffImp
+    class AffImpMF(AffImp):
+        """The same implicit component, matrix-free: `apply_linear` instead of `linearize`.  Every
+        call logs the nonlinear `outputs` and `inputs` it was handed (they must be the physical,
+        unscaled values whatever the solver scaling is)."""
+
+        def setup_partials(self):
+            self._decl = set()
+
+        def linearize(self, inputs, outputs, partials):
+            pass
+
+        def apply_linear(self, inputs, outputs, d_inputs, d_outputs, d_residuals, mode):
+            c = self.options['cdef']
+            log = self.options['log']
+            if log is not None:
+                log.append((self.pathname + ':apply_linear',
+                            {o['name']: np.array(outputs[o['name']]).ravel().copy() for o in c['outs']},
+                            {i['name']: np.array(inputs[i['name']]).ravel().copy() for i in c['ins']}))
+            for k, o in enumerate(c['outs']):
+                rows = slice(self._ooffs[k], self._ooffs[k + 1])
+                if o['name'] not in d_residuals:
+                    continue
+                for k2, o2 in enumerate(c['outs']):
+                    if o2['name'] not in d_outputs:
+                        continue
+                    blk = self._A[rows, self._ooffs[k2]:self._ooffs[k2 + 1]]
+                    if mode == 'fwd':
+                        d_residuals[o['name']] += (blk @ np.asarray(d_outputs[o2['name']]).ravel()
+                                                   ).reshape(o['shape'])
+                    else:
+                        d_outputs[o2['name']] += (blk.T @ np.asarray(d_residuals[o['name']]).ravel()
+                                                  ).reshape(o2['shape'])
+                for j, i in enumerate(c['ins']):
+                    if i['name'] not in d_inputs:
+                        continue
+                    J = np.zeros((self._osizes[k], self._isizes[j]))
+                    for e, (jj, ee) in enumerate(c['in_elems']):
+                        if jj == j:
+                            J[:, ee] += -self._B[rows, e]
+                    if mode == 'fwd':
+                        d_residuals[o['name']] += (J @ np.asarray(d_inputs[i['name']]).ravel()
+                                                   ).reshape(o['shape'])
+                    else:
+                        d_inputs[i['name']] += (J.T @ np.asarray(d_residuals[o['name']]).ravel()
+                                                ).reshape(i['shape'])
+
+    return PolyComp, PolyCompMF, AffImp, AffImpMF
 
 
 _CLASSES = None
@@ -1146,7 +1192,7 @@ def build_problem(md, log=None, cfg=None):
     import openmdao.api as om
     if _CLASSES is None:
         _CLASSES = make_polycomp_class()
-    PolyComp, PolyCompMF, AffImp = _CLASSES
+    PolyComp, PolyCompMF, AffImp, AffImpMF = _CLASSES
     cfg = cfg or {}
     p = om.Problem()
     model = p.model
@@ -1182,7 +1228,8 @@ def build_problem(md, log=None, cfg=None):
                 # an assembled jacobian rejects matrix-free components by design
                 cd['partials'] = 'dense'
             if c['kind'] == 'implicit':
-                comp = AffImp(cdef=cd, log=log)
+                comp = (AffImpMF if cfg.get('implicit_matfree') and not cfg.get('jac') else AffImp)(
+                    cdef=cd, log=log)
             else:
                 cls = PolyCompMF if cd.get('partials') == 'matfree' else PolyComp
                 comp = cls(cdef=cd, log=log)
